@@ -112,10 +112,13 @@ class PropKB:
         acts = {"luk": L.NeuralActivation.Lukasiewicz, "lukt": L.NeuralActivation.LukasiewiczTransparent}
         for n in desc["nodes"]:
             k = n["kind"]
+            wmap = {"axiom": L.World.AXIOM, "closed": L.World.CLOSED, "open": L.World.OPEN}
             if k == "atom":
                 kw = {}
                 if n.get("alpha", Fr(1)) != 1:
                     kw["activation"] = {"alpha": float(n["alpha"])}
+                if n.get("world", "open") != "open":
+                    kw["world"] = wmap[n["world"]]
                 o = L.Proposition(n.get("name", f"p{n['id']}"), **kw)
                 new = [(n["id"], o)]
             else:
@@ -130,6 +133,8 @@ class PropKB:
                 if "w" in n:
                     act["weights"] = tuple(float(w) for w in n["w"])
                 kw = {"activation": act} if act else {}
+                if n.get("world", "open") != "open" and k in ("and", "or", "implies"):
+                    kw["world"] = wmap[n["world"]]
                 if k == "not":
                     o = L.Not(ops[0])
                     new = [(n["id"], o)]
@@ -157,8 +162,15 @@ class PropKB:
         self.roots = list(desc["roots"])
 
     def add_roots(self, order=None):
+        L = lnn()
+        wmap = {"axiom": L.World.AXIOM, "closed": L.World.CLOSED, "open": L.World.OPEN}
+        rw = self.desc.get("root_world", {})
         for r in (order or self.roots):
-            self.model.add_knowledge(self.obj[r])
+            w = rw.get(r, rw.get(str(r)))
+            if w:
+                self.model.add_knowledge(self.obj[r], world=wmap[w])
+            else:
+                self.model.add_knowledge(self.obj[r])
 
     # --- mirror as model nodes -------------------------------------------------
     def node_line(self, i):
@@ -194,7 +206,13 @@ class PropKB:
                 f"post={ids(post)} pidx={pidx}")
 
     def header_lines(self):
-        return ["reset"] + [self.node_line(i) for i in self.order]
+        # world assumptions (constructor keyword, add_knowledge(world=)) are initial data of the formula: read them back
+        init = []
+        for i in self.order:
+            lo, hi = bounds_of(self.obj[i])
+            if (lo, hi) != (Fr(0), Fr(1)):
+                init.append(f"set {i} {q(lo)} {q(hi)}")
+        return ["reset"] + [self.node_line(i) for i in self.order] + init
 
     def all_ids(self):
         return list(self.order)
